@@ -110,6 +110,10 @@ func validateUpdateRequest(info *UpdateRequestInfo) error {
 		return err
 	}
 
+	if err := validateAnchoringWindow(info.AnchorFrom, info.AnchorUntil); err != nil {
+		return err
+	}
+
 	return validateSigner(info.Signer)
 }
 
